@@ -510,6 +510,34 @@ func main() {
 		}
 	}
 
+	// reference-taking operations: requests built from the resolved reference
+	for _, base := range bases {
+		for _, tag := range []string{"v1", "A.b-c_d", strings.Repeat("x", 128)} {
+			for _, d := range digestPool[:4] {
+				opForms(base, tag, d)
+			}
+		}
+		for i := 0; i < run.Scale(1500, 30000); i++ {
+			var s string
+			switch r.Intn(5) {
+			case 0:
+				s = randomValid(r)
+			case 1:
+				s = base.Registry + "/" + base.Repository + common.Pick(r, []string{":v1", "@" + digestPool[0], ":v1@" + digestPool[0], "", ":", "@"})
+			case 2:
+				s = common.Pick(r, digestPool)
+			case 3:
+				s = "t" + "@" + common.Pick(r, digestPool)
+			default:
+				s = common.Pick(r, []string{"v1", "a/b", "a:b", "@", ":", "a@b", "sha256:abc", "v1@", "v 1", "v1?x=1", "v1#f", "../x"})
+			}
+			if r.Chance(1, 3) {
+				s = mutate(r, s)
+			}
+			opCase(base, common.Pick(r, opKinds), r.Bool(), s, "")
+		}
+	}
+
 	// URL builders on accepted references
 	for i := 0; i < run.Scale(2000, 40000); i++ {
 		ref, err := registry.ParseReference(randomValid(r))
@@ -528,6 +556,8 @@ func replay(path string) {
 			parseCase(c["input"])
 		case "R":
 			repoCase(registry.Reference{Registry: c["registry"], Repository: c["repository"]}, c["input"])
+		case "O":
+			opCase(registry.Reference{Registry: c["registry"], Repository: c["repository"]}, c["kind"], c["plain"] == "true", c["input"], c["want"])
 		case "U":
 			ref := registry.Reference{Registry: c["registry"], Repository: c["repository"], Reference: c["reference"]}
 			checkURL(run.NewID(), c["kind"], c["plain"] == "true", ref)
